@@ -515,8 +515,6 @@ def _exec_F(sc):
         probes['F_bias_on_a_subset_of_axes'] = 1
     if sc.get('asynchronous'):
         probes['F_aiding_epochs_between_imu_epochs'] = 1
-    if kn.get('ff_decimate'):
-        probes['F_feedforward_on_decimated_trajectory'] = 1
     if any(s_['stamps'] and s_['stamps'][0] == sc['imu']['stamps'][0] for s_ in sc['sensors']):
         probes['F_fix_at_the_initial_stamp'] = 1
     if sc.get('family') == 'L':
@@ -576,7 +574,7 @@ PROBES_WANTED = ['T_runs', 'T_measurements_none', 'T_measurements_empty', 'T_emp
                  'F_strong_aiding', 'F_scale_misalignment_states', 'F_two_d_mode',
                  'L_directed_lever_arm_worlds', 'F_epoch_shared_between_sensors',
                  'F_bias_on_a_subset_of_axes', 'F_aiding_epochs_between_imu_epochs',
-                 'F_feedforward_on_decimated_trajectory', 'F_fix_at_the_initial_stamp']
+                 'F_fix_at_the_initial_stamp']
 
 
 def describe():
